@@ -27,6 +27,7 @@ The classification itself is checked against the real code by the correspondence
 set of a real `Shoot`, race-detector sweep); see `Drv/C11.lean`.
 -/
 import Pandora.Proofs.C11Exec
+import Pandora.Proofs.C11Own
 import Pandora.Gen.Locks
 import Pandora.Spec.C11
 
@@ -156,6 +157,147 @@ theorem C11_prefix_table_counterexample :
   intro h
   exact not_hb_two 0 1 1 true true 0 0 (by decide) 0 1 (h 0 1 _ _ (by decide) rfl rfl (by simp [Conflict]))
 
+/-! ### objects that change hands: samples (pool → instance → aggregator → pool) and pooled ammo -/
+
+/-- **C11_drf_handover_programs**: any number of threads (instances, the provider goroutine, the aggregator goroutine)
+whose programs mix ordinary accesses with `take … bare accesses … give` sections on hand-over objects; each program on
+its own respects the ownership discipline `progOk` (bare accesses only between its `take` and its `give` of that
+object, nothing given twice); every schedule: data-race free. `C11_drf_programs` is the special case without
+hand-over objects. -/
+theorem C11_drf_handover_programs (cls : Nat → Class) (progs : List (List OOp))
+    (hok : ∀ (t : Nat) (ops : List OOp), progs[t]? = some ops → progOk cls t [] ops) (sched : List Nat) :
+    DRF (exec (initCfgO cls progs) sched) :=
+  drf_of_wf cls _ (exec_wfO cls sched (initCfgO cls progs) (initCfgO_ok cls progs hok))
+
+/-- the life cycle of one sample (object 0, ownership token 0; object 1 = the instance's own gun state, object 2 = the
+shared `[next]` counters under the iterator mutex 7): instance 0 takes it from the pool, fills it in, reports it; the
+aggregator (thread 1) receives, reads and releases it; instance 2 takes the same sample from the pool. -/
+def sampleCls : Nat → Class := fun o => if o = 0 then .sharedSync 0 else if o = 1 then .loc 0 else .sharedSync 7
+
+def samplePrograms : List (List OOp) := [
+  [.take 0, .acc ⟨1, true, 5⟩, .acc ⟨2, true, 1⟩, .own ⟨0, true, 200⟩, .give 0],
+  [.take 0, .own ⟨0, false, 0⟩, .give 0],
+  [.acc ⟨2, true, 2⟩, .take 0, .own ⟨0, true, 500⟩, .give 0]]
+
+/-- non-vacuity: the three programs respect the discipline, and under this schedule (turns of a thread blocked on a
+token or a mutex are skipped) the sample really passes through all three threads -/
+example : ∀ (t : Nat) (ops : List OOp), samplePrograms[t]? = some ops → progOk sampleCls t [] ops := by
+  intro t ops h
+  apply progOk_of_progOkB
+  match t, h with
+  | 0, h => simp [samplePrograms] at h; subst h; decide
+  | 1, h => simp [samplePrograms] at h; subst h; decide
+  | 2, h => simp [samplePrograms] at h; subst h; decide
+  | n + 3, h => simp [samplePrograms] at h
+
+example : exec (initCfgO sampleCls samplePrograms) [0, 1, 2, 0, 2, 0, 2, 2, 0, 0, 0, 1, 2, 0, 0, 1, 2, 1, 1, 2, 2, 2]
+    = [.acq 0 0, .acq 2 7, .acc 0 1 true 5, .acc 2 2 true 2, .rel 2 7, .acq 0 7, .acc 0 2 true 1, .rel 0 7,
+       .acc 0 0 true 200, .rel 0 0, .acq 1 0, .acc 1 0 false 0, .rel 1 0, .acq 2 0, .acc 2 0 true 500, .rel 2 0] := by
+  decide
+
+/-- **C11_owned_exclusive**: while a thread holds the token of a hand-over object (from the point where it took it
+until it gives it on), every access to that object in the trace is its own — the ammo an instance shoots and the
+sample it fills in are touched by nobody else, in every interleaving. -/
+theorem C11_owned_exclusive (cls : Nat → Class) (l i : Nat) : ∀ (mid : List Ev) (h : Locks),
+    h l = some i → WF cls h mid → (∀ e ∈ mid, e ≠ Ev.rel i l) →
+    ∀ t o w v, Ev.acc t o w v ∈ mid → cls o = .sharedSync l → t = i := by
+  intro mid
+  induction mid with
+  | nil => intro h _ _ _ t o w v hm; cases hm
+  | cons e es ih =>
+    intro h hl hwf hno t o w v hm hcls
+    obtain ⟨hok, hwf'⟩ := hwf
+    rcases List.mem_cons.mp hm with heq | hin
+    · subst heq
+      simp only [stepOk, hcls] at hok
+      rw [hl] at hok
+      exact (Option.some.inj hok).symm
+    · have hkeep : (next h e) l = some i := by
+        cases e with
+        | acc t' o' w' v' => exact hl
+        | acq t' l' =>
+          simp only [next]
+          by_cases hll : l = l'
+          · subst hll
+            simp only [stepOk] at hok
+            rw [hl] at hok
+            cases hok
+          · rw [set_other _ _ _ _ hll]; exact hl
+        | rel t' l' =>
+          simp only [next]
+          by_cases hll : l = l'
+          · subst hll
+            simp only [stepOk] at hok
+            rw [hl] at hok
+            have : t' = i := (Option.some.inj hok).symm
+            subst this
+            exact absurd rfl (hno _ List.mem_cons_self)
+          · rw [set_other _ _ _ _ hll]; exact hl
+      exact ih (next h e) hkeep hwf' (fun e' he' => hno e' (List.mem_cons_of_mem _ he')) t o w v hin hcls
+
+/-- non-vacuity: a stretch of the sample trace above during which instance 0 owns the sample (it took it just before):
+thread 2 is busy with the shared counters, the only access to the sample is instance 0's -/
+example : ∀ t o w v, Ev.acc t o w v ∈ [Ev.acq 2 7, .acc 0 1 true 5, .acc 2 2 true 2, .rel 2 7, .acc 0 0 true 200] →
+    sampleCls o = .sharedSync 0 → t = 0 :=
+  C11_owned_exclusive sampleCls 0 0 _ (locksAfter noLocks [.acq 0 0]) (by decide)
+    (by simp [WF, stepOk, next, Locks.set, locksAfter, noLocks, sampleCls]) (by decide)
+
+/-- **C11_report_twice_counterexample** (a gun that reports a sample and, when a later postprocessor fails, tags and
+reports the same sample again): the gun's program violates the discipline; under the schedule 0,0,0,1,0,1 the
+aggregator (thread 1) owns the sample when the gun writes it — the trace is ill-formed and the gun's write races
+with the aggregator's read. -/
+theorem C11_report_twice_counterexample :
+    let cls : Nat → Class := fun _ => .sharedSync 0
+    let gun : List OOp := [.take 0, .own ⟨0, true, 200⟩, .give 0, .own ⟨0, true, 0⟩, .give 0]
+    let aggr : List OOp := [.take 0, .own ⟨0, false, 0⟩, .give 0]
+    let tr := exec (initCfgO cls [gun, aggr]) [0, 0, 0, 1, 0, 1]
+    ¬ progOk cls 0 [] gun ∧ ¬ WF cls noLocks tr ∧ ¬ DRF tr := by
+  intro cls gun aggr tr
+  have htr : tr = [.acq 0 0, .acc 0 0 true 200, .rel 0 0, .acq 1 0, .acc 0 0 true 0, .acc 1 0 false 0] := by decide
+  refine ⟨?_, ?_, ?_⟩
+  · simp [gun, progOk]
+  · rw [htr]
+    simp [WF, stepOk, next, Locks.set, noLocks, cls]
+  · rw [htr]
+    intro h
+    have hb := h 4 5 _ _ (by decide) rfl rfl (by simp [Conflict])
+    obtain ⟨_, hc⟩ := hb_cases _ _ _ hb
+    rcases hc with ⟨a, b, ha, hb', hab⟩ | ⟨p, q, t, t', l, hp, hpq, hq, hrel, _⟩
+    · simp at ha hb'
+      subst ha; subst hb'
+      simp [Ev.thread] at hab
+    · have : p = 4 := by omega
+      subst this
+      simp at hrel
+
+/-- **C11_unlocked_fastpath_counterexample** (`NextIterator.Next` with a lock-free look-up of the counter map before
+the locked insert): the lock facts of such a method are rejected, and an instance reading the map bare while another
+one inserts under the mutex (schedule 1,1,0,1) races with the insert. -/
+theorem C11_unlocked_fastpath_counterexample :
+    let tbl : List C11LockRow := [
+      ⟨0, "lib/mp.NextIterator.gs", "Next", false, .none⟩,
+      ⟨0, "lib/mp.NextIterator.gs", "Next", false, .mutex "mx"⟩,
+      ⟨0, "lib/mp.NextIterator.gs", "Next", true, .mutex "mx"⟩]
+    c11TableOk tbl = false ∧
+    ¬ DRF (exec { held := noLocks,
+                  todo := [[tbl[0]], [tbl[2]]].zipIdx.map fun (rows, t) => rows.flatMap (siteEvents tbl t) } [1, 1, 0, 1]) := by
+  intro tbl
+  refine ⟨by decide, ?_⟩
+  have : exec { held := noLocks,
+                todo := [[tbl[0]], [tbl[2]]].zipIdx.map fun (rows, t) => rows.flatMap (siteEvents tbl t) } [1, 1, 0, 1]
+      = [.acq 1 0, .acc 1 0 true 0, .acc 0 0 false 0, .rel 1 0] := by decide
+  rw [this]
+  intro h
+  have hb := h 1 2 _ _ (by decide) rfl rfl (by simp [Conflict])
+  obtain ⟨_, hc⟩ := hb_cases _ _ _ hb
+  rcases hc with ⟨a, b, ha, hb', hab⟩ | ⟨p, q, t, t', l, hp, hpq, hq, hrel, _⟩
+  · simp at ha hb'
+    subst ha; subst hb'
+    simp [Ev.thread] at hab
+  · have : p = 1 := by omega
+    subst this
+    simp at hrel
+
 /-! ### guns -/
 
 /-- **C11_gun_exclusive**: for every sequence of instance starts and instance moves, the guns of the instances are
@@ -164,6 +306,19 @@ theorem C11_gun_exclusive (acts : List Act) :
     ((engRun engInit acts).insts.map (·.gun)).Nodup ∧ ∀ g, active g (engRun engInit acts).insts ≤ 1 := by
   have h := engRun_ok acts engInit ⟨by simp [engInit], by simp [engInit]⟩
   exact ⟨h.1, fun g => active_le_one g _ h.1⟩
+
+/-- **C11_engine_gun_facts**: what the engine model's actions stand for, read off the current source of `core/engine`
+(regenerated): the gun factory is called at exactly two places, neither inside a loop — once per `newInstance`
+(`Act.start`) and once for the warm-up gun (`Act.warmup`); the factory result reaches an instance at exactly two
+wiring points (the `newGun` dependency and the `gun` field of the new instance); and `Shoot` is called at exactly one
+place, on the instance's own `gun` field (`Act.move i`). A gun cache, a second `Shoot` site or a factory call in a loop
+changes these facts. -/
+theorem C11_engine_gun_facts :
+    Pandora.Gen.Locks.gunFactoryCalls.length = 2 ∧
+    (Pandora.Gen.Locks.gunFactoryCalls.all fun c => !c.2.2) = true ∧
+    (Pandora.Gen.Locks.gunFactoryCalls.map (·.1)).Nodup ∧
+    Pandora.Gen.Locks.gunWiring.length = 2 ∧
+    Pandora.Gen.Locks.shootCalls.length = 1 := by decide
 
 /-- non-vacuity: a warm-up gun and three instances, two of them inside `Shoot` at the same time — on different guns -/
 example : (engRun engInit [.warmup, .start, .start, .move 0, .start, .move 2]).insts
